@@ -284,6 +284,11 @@ Definition qmod (a b : Q) : Q := a - b * qz (Qfloor (a / b)).     (* Python %, f
 
 Definition env := str -> option Z.
 
+(* x >> n.  Z.shiftr halves n times, which never finishes in practice for a count such as 10^16; a count beyond the size of
+   the operand gives the sign fill at once.  [shr_spec] (ExprProofs.v): for n >= 0 this is Z.shiftr. *)
+Definition shr (a n : Z) : Z :=
+  if Z.log2 (Z.abs a) + 1 <? n then (if a <? 0 then -1 else 0) else Z.shiftr a n.
+
 Fixpoint compute (rho : env) (e : expr) : result Q :=
   match e with
   | ENum n => Ok (qz n)
@@ -309,7 +314,7 @@ Fixpoint compute (rho : env) (e : expr) : result Q :=
       | OOr => Ok (qz (Z.lor (trunc x) (trunc y)))
       | OXor => Ok (qz (Z.lxor (trunc x) (trunc y)))
       | OShl => if trunc y <? 0 then Rejected else Ok (qz (Z.shiftl (trunc x) (trunc y)))
-      | OShr => if trunc y <? 0 then Rejected else Ok (qz (Z.shiftr (trunc x) (trunc y)))
+      | OShr => if trunc y <? 0 then Rejected else Ok (qz (shr (trunc x) (trunc y)))
       end
   end.
 
